@@ -42,7 +42,10 @@ def _gcc(src):
                        capture_output=True, text=True)
     if r.returncode == 0:
         return None
-    m = SYNTAX_ERR.search(r.stderr)
+    # only the first diagnostic counts: what follows a semantic error (say `static` on a block-scope function
+    # declaration, after which gcc drops the declaration) is an artefact of gcc's recovery
+    first = next((l for l in r.stderr.splitlines() if "error:" in l), "")
+    m = SYNTAX_ERR.search(first)
     return r.stderr[:300] if m else None
 
 
